@@ -1652,6 +1652,8 @@ def make_r3_case(rng, entry=None):
                             "steps": [(tuple(p), fs, random_field_value(rng, fs, enums)) for p, fs in picks]})
     # --- memories with rows of this shape
     mems = []
+    if entry is not None and size > 0:
+        mems.append({"depth": 3, "rows": [], "via_setter": False})            # no row initialised: every row is the defaults
     if size > 0:
         for _ in range(rng.randint(1, 2)):
             depth = rng.randint(1, 4)
